@@ -80,14 +80,14 @@ BOUNDS = {
     "quick": {
         "sequence_length": 2,
         "sources": ["code", "sdl"],
-        "first_operation": "full menu (95): every single type / field / input field / directive hidden + 4 pairs, stacked with camel case, clone, camel, 7 extensions, directives, fix",
+        "first_operation": "full menu (101): every single type / field / input field / directive hidden + 4 pairs, stacked with camel case, clone, camel, 13 extension documents (7 adding built-in typed members, 6 adding members typed by existing enum / input / object / interface / union / scalar types, bare and wrapped, to interfaces + implementers, objects, input objects, unions, enums), directives, fix",
         "second_operation": "representative menu: one operation per operation kind, hide-type once per kind of type",
     },
     "thorough": {
         "sequence_length": 3,
         "sources": ["code", "sdl"],
-        "first_operation": "full menu (160): quick menu + every pair of types hidden together",
-        "second_operation": "full quick menu (95)",
+        "first_operation": "full menu (166): quick menu + every pair of types hidden together",
+        "second_operation": "full quick menu (101)",
         "triples": "all triples over the representative menu",
     },
 }
@@ -147,6 +147,8 @@ def representatives(sm, menu):
     seen, out = set(), []
     for op in menu:
         key = S.op_kind(op)
+        if op["op"] == "extend" and op.get("ext") == "members":
+            key = "extend:members"  # one representative for the documents adding members typed by existing types
         if op["op"] == "hide" and key == "hide:types" and len(op["types"]) == 1:
             key += ":" + str(M.kind_of(sm, op["types"][0]))
         if key in seen:
